@@ -118,7 +118,8 @@ class Decoder:
                 try:
                     start, stop, _ = dec.add(sb, name=name, addr=addr)
                 except ValueError:
-                    rejected.append({"aw": saw, "addr": addr, "name": name, "after": len(subs)})
+                    if not pre:      # (a pending align_to would not be replayed for a refused add)
+                        rejected.append({"aw": saw, "addr": addr, "name": name, "after": len(subs)})
                     continue
                 sc["start"] = start
                 sc["align_to"], pre = pre, []
